@@ -287,6 +287,8 @@ func checkC06(c *Ctx) {
 
 	checkC06Clamps(c)
 	checkReturnedLine(c, "C06.returned-line")
+	checkLineSetReplaces(c, "C06.set-replaces")
+	checkStaleTest(c, "C06.stale-test", "")
 }
 
 // isStoreToField helper for clamps
